@@ -509,7 +509,7 @@ MUTANTS = [
     Mutant("partial-chunk-not-counted", HTTP, "            chunk = bytes(self._buffer)\n            self.length -= len(chunk)\n", "            chunk = bytes(self._buffer)\n"),
     Mutant("body-boundary-strict", HTTP, "        if len(self._buffer) >= self.length:\n            chunk = memoryview", "        if len(self._buffer) > self.length:\n            chunk = memoryview"),
     Mutant("state-after-data-callback", HTTP, "            self.state = \"CRLF\"\n            self.dataCallback(chunk)", "            self.dataCallback(chunk)\n            self.state = \"CRLF\""),
-    Mutant("trailer-size-not-counted", HTTP, "            self._receivedTrailerHeadersSize += eolIndex + 2\n", ""),
+    Mutant("trailer-size-not-counted", HTTP, "            self._receivedTrailerHeadersSize = receivedSize\n", ""),
     Mutant("trailer-limit-unterminated-dropped", HTTP, "            if minTrailerSize > self._maxTrailerHeadersSize:\n                raise _MalformedChunkedDataError(\"Trailer headers data is too long.\")\n", ""),
     Mutant("semicolon-searched-beyond-line", HTTP, "endOfLengthIndex = self._buffer.find(b\";\", 0, eolIndex)", "endOfLengthIndex = self._buffer.find(b\";\")"),
     Mutant("terminator-taken-as-trailer-field", HTTP, "        if eolIndex > 0:\n            # A trailer header was detected.", "        if eolIndex >= 0:\n            # A trailer header was detected."),
@@ -528,7 +528,7 @@ SILENT = [
     Silent("dispatch-loop-with-break", HTTP, "        goOn = True\n        while goOn and self._buffer:\n            goOn = getattr(self, \"_dataReceived_\" + self.state)()", "        while self._buffer:\n            step = getattr(self, \"_dataReceived_\" + self.state)\n            if not step():\n                break"),
     Silent("limit-exception-built-by-helper", HTTP, "            raise _MalformedChunkedDataError(\n                \"Chunk size line exceeds maximum of {} bytes.\".format(\n                    maxChunkSizeLineLength\n                )\n            )\n", "            raise self._tooLong()\n",
            more=[(HTTP, "    def _dataReceived_CRLF(self) -> bool:", "    def _tooLong(self):\n        return _MalformedChunkedDataError(\"Chunk size line exceeds maximum of {} bytes.\".format(maxChunkSizeLineLength))\n\n    def _dataReceived_CRLF(self) -> bool:")]),
-    Silent("trailer-limit-helper", HTTP, "            if self._receivedTrailerHeadersSize > self._maxTrailerHeadersSize:\n                raise _MalformedChunkedDataError(\"Trailer headers data is too long.\")\n            return True", "            self._limitTrailers(self._receivedTrailerHeadersSize)\n            return True",
+    Silent("trailer-limit-helper", HTTP, "            if receivedSize > self._maxTrailerHeadersSize:\n                raise _MalformedChunkedDataError(\"Trailer headers data is too long.\")\n", "            self._limitTrailers(receivedSize)\n",
            more=[(HTTP, "    def _dataReceived_BODY(self) -> bool:", "    def _limitTrailers(self, size):\n        if size > self._maxTrailerHeadersSize:\n            raise _MalformedChunkedDataError(\"Trailer headers data is too long.\")\n\n    def _dataReceived_BODY(self) -> bool:")]),
     Silent('hexdigits-regex-fullmatch', ABNF, '    for c in b:\n        if c not in b"0123456789abcdefABCDEF":\n            return False\n    return b != b""\n', '    return _HEX_RE.fullmatch(b) is not None\n', more=[(ABNF, '"""\n\n\ndef _istoken', '"""\n\nimport re\n\n_HEX_RE = re.compile(rb"[0-9a-fA-F]+")\n\n\ndef _istoken')]),
     Silent('hexdigits-regex-Z-anchored', ABNF, '    for c in b:\n        if c not in b"0123456789abcdefABCDEF":\n            return False\n    return b != b""\n', '    return _HEX_RE.match(b) is not None\n', more=[(ABNF, '"""\n\n\ndef _istoken', '"""\n\nimport re\n\n_HEX_RE = re.compile(rb"[0-9a-fA-F]+\\Z")\n\n\ndef _istoken')]),
